@@ -152,6 +152,9 @@ func traitKindNamesInit() []string {
 		if k == "alpriv" {
 			continue // out of domain
 		}
+		if strings.HasPrefix(k, "prev") {
+			continue // typed by an enum that an EARLIER generation of the same session wrote: multi cases only
+		}
 		if len(k) == 3 && k[0] == 'p' && (k[2] == '0' || k[2] == '1') {
 			continue // session kinds are not drawn at random
 		}
